@@ -439,3 +439,26 @@ func H_C13_keys_of_several_bytes() {
 	verifAssert(len(src) == 3 && src[k] == any(x), "NewXFrom does not modify its input")
 	verifReach("end")
 }
+
+// A container that is wrapped by a derived struct *after* it has been stored (Init re-registers the stored
+// container's outer value): Get now returns the derived value, and the one-level snapshots hold exactly that.
+func H_C13_wrapped_after_storing() {
+	x := nondetInt()
+	outer := NewListFrom([]any{"x", []any{x, 2}, map[string]any{"k": x}, nil})
+	dl := &hDList{List: outer.GetList(1)}
+	dl.Init(dl)
+	do := &hDObject{Object: outer.GetObject(2)}
+	do.Init(do)
+	s := outer.Slice()
+	verifAssert(outer.Get(1) == any(dl) && outer.Get(2) == any(do), "Init registers the outer value of a stored container")
+	verifAssert(len(s) == 4 && s[0] == any("x") && s[1] == outer.Get(1) && s[2] == outer.Get(2) && s[3] == nil, "Slice holds exactly what Get returns per index (containers by identity)")
+	o := NewObjectFrom(map[string]any{"l": []any{x}, "o": map[string]any{}})
+	dl2 := &hDList{List: o.GetList("l")}
+	dl2.Init(dl2)
+	d := o.Dict()
+	verifAssert(len(d) == 2 && d["l"] == o.Get("l") && d["l"] == any(dl2) && d["o"] == o.Get("o"), "Dict holds exactly what Get returns per key (containers by identity)")
+	nat := outer.NativeSlice()
+	in1, ok := nat[1].([]any)
+	verifAssert(len(nat) == 4 && ok && len(in1) == 2 && in1[0] == any(x), "Native* is deep-equal to the container's content")
+	verifReach("end")
+}
